@@ -38,13 +38,19 @@ class PtnFilter:
 
         # noinspection PyTypeChecker
         new_ = np.intersect1d(ar_self, ar_other)
-        return PtnFilter(np.asarray([new_[n] for n in ar_self.dtype.names]).transpose())
+        # The result filters like its operands: same class, keys and inversion
+        return type(self)(
+            ar=np.asarray([new_[n] for n in ar_self.dtype.names]).transpose(),
+            keys=self.keys,
+            invert_filter=self.invert_filter,
+        )
 
     def __or__(self, other: PtnFilter or np.ndarray):
         """This finds the union of these 2 arrays"""
 
-        return PtnFilter(
-            np.unique(
+        # The result filters like its operands: same class, keys and inversion
+        return type(self)(
+            ar=np.unique(
                 np.concatenate(
                     [
                         self.ar,
@@ -55,7 +61,9 @@ class PtnFilter:
                     axis=0,
                 ),
                 axis=0,
-            )
+            ),
+            keys=self.keys,
+            invert_filter=self.invert_filter,
         )
 
     def filter(self, data):
